@@ -321,6 +321,27 @@ pub fn run_c20(ctx: &Ctx) -> i32 {
                         ));
                     }
                 }
+                // ... and an oversized request is skipped cleanly under every configured limit: one write carrying
+                // the oversized set and two followers must be answered 0x03, hit, noop
+                if let Ok(mut c) = Cli::connect_plain(port) {
+                    use std::io::Write;
+                    let l = conf.item_limit as usize;
+                    let k = b"limitprobe";
+                    let mut one = wire::store(op::SET, b"skipme", &vec![b'w'; l - 8 - 6 + 1], 0, 0, 11, 0).encode();
+                    one.extend(wire::get(op::GET, k, 12).encode());
+                    one.extend(wire::simple(op::NOOP, 13).encode());
+                    let _ = c.s.write_all(&one);
+                    c.read_frames(3, Duration::from_secs(5));
+                    let rs = crate::l3::parse_prefix(&c.rx);
+                    let got: Vec<(u32, u16)> = rs.iter().map(|r| (r.opaque, r.status)).collect();
+                    *local.entry("oversized_with_followers_probes".into()).or_insert(0) += 1;
+                    if got != vec![(11, st::TOO_LARGE), (12, st::OK), (13, st::OK)] {
+                        viols.push((
+                            Viol::new(&["C20", "C13"], "oversized-skip-differs-by-configuration", format!("configuration {}: oversized set (body limit+1), get, noop written at once were answered {:?} (opaque, status), expected [(11, 0x3), (12, 0x0), (13, 0x0)]", conf.name(), got)),
+                            describe(json!({"item_limit": l})),
+                        ));
+                    }
+                }
                 // connection limit
                 {
                     let want = if conf.conn_limit == 2 { 2usize } else { 24 };
